@@ -197,19 +197,32 @@ def sign_heaps(ctx, prog):
                  [s for _, s in plus], fn=prog.fn(q.STATE + "observe"))
     else:
         ctx.ok(R, "active:observe")
-    if sorted(s for _, s in minus) != ["-", "-"]:
-        ctx.fail(R, "active:disallow", "disallow_future_use must subtract one in the Created and the "
-                 "InUse arm, found %s" % [s for _, s in minus], fn=prog.fn(q.OBS_IMPL + "disallow_future_use"))
+    # per observer state: exactly one decrement for Created / InUse, none for Disallowed / Unlinked
+    D = prog.fn(q.OBS_IMPL + "disallow_future_use")
+    if D is None:
+        ctx.missing(R, "disallow_future_use")
     else:
-        # the two decrements lie on disjoint arms
-        F = minus[0][0].fn
-        c = F.cfg()
-        b1, b2 = minus[0][0].bb, minus[1][0].bb
-        if b2 in c.reach({b1}) or b1 in c.reach({b2}):
-            ctx.fail(R, "active:disallow", "the two decrements are on one path (double count)", fn=F)
-        else:
+        from . import dtab
+        from .effects import resolve_fields
+        OS = "incremental::internal_observer::ObserverState"
+        minus_sites = {id(a.site): sg for a, sg in minus}
+        acts = [dtab.Action("active", lambda t: id(t) in minus_sites or any(
+            t.bb == a.site.bb for a, _ in minus), lambda F_, t, du_: [sg for a, sg in minus if a.site.bb == t.bb][0])]
+        tb = dtab.table(D, [dtab.Sym("state", dtab.is_field_get("state"), dtab.enum_domain(prog, OS))], acts,
+                        record_returns=False, path_sensitive=True)
+        good = True
+        for (st,), res in sorted(tb.items()):
+            seqs = sorted({tuple(a[1] for a in r if a[0] == "active") for r in res})
+            ctx.site(R, D, "disallow_future_use(%s) -> active %s" % (st, seqs))
+            want = [("-",)] if st in ("Created", "InUse") else [()]
+            if seqs != want:
+                good = False
+        if good:
             ctx.ok(R, "active:disallow")
-    ctx.floor(R, n, 10)
+        else:
+            ctx.fail(R, "active:disallow", "disallow_future_use must subtract one active observer exactly once for Created "
+                     "and InUse observers and never for Disallowed / Unlinked ones", fn=D)
+    ctx.floor(R, n, 8)
 
 
 MARKER_TABLE = {
@@ -464,9 +477,66 @@ def dom_bracket(ctx, prog, R="C11.DOM-bracket"):
                  span=a.span)
 
 
+def data_swap(ctx, prog, R="C11.DATA-swap"):
+    ctx.rule(R, "expert_swap_children_except_in_kind is a swap: parent.slot[i1] := old parent.slot[i2], parent.slot[i2] := "
+                "old parent.slot[i1]; child1.back[old slot[i1]] := i2; child2.back[old slot[i2]] := i1 (loads precede stores)")
+    from .expr import expr, show
+    from .facts import Place
+    F = ctx.need_fn(R, q.NODE_IMPL + "expert_swap_children_except_in_kind")
+    if F is None:
+        return
+    du = DefUse(F)
+    c = F.cfg()
+
+    def norm(e):
+        """index(_mut)(<owner>.<array>, <idx>) -> (owner arg, array, idx-expr)"""
+        if e[0] == "call" and (e[1].endswith("::index") or e[1].endswith("::index_mut")) and len(e[2]) == 2:
+            arr, idx = e[2]
+            if arr[0] == "field":
+                owner = [x for x in __import__("rules.expr", fromlist=["walk"]).walk(arr) if x[0] == "arg"]
+                return ("elem", owner[0][1] if owner else None, arr[2][-1], norm(idx))
+        if e[0] == "arg":
+            return ("arg", e[1])
+        return ("?", show(e)[:40])
+    stores = []
+    for st in F.stmts():
+        if st.dst is None or st.dst.proj != ["deref"] or F.is_cleanup(st.bb) or q.is_debug_assert(st):
+            continue
+        base = expr(F, Place({"local": st.dst.local, "proj": []}), du)
+        if not (base[0] == "call" and base[1].endswith("::index_mut")):
+            continue
+        val = expr(F, st.rv["use"], du) if "use" in (st.rv or {}) else ("?",)
+        stores.append((st, norm(base), norm(val)))
+        ctx.site(R, F, "bb%d %s := %s" % (st.bb, show(base)[-70:], show(val)[-70:]))
+    P, A = "my_parent_index_in_child_at_index", "my_child_index_in_parent_at_index"
+    slot = lambda i: ("elem", 1, P, ("arg", i))
+    want = {
+        (("elem", 1, P, ("arg", 3)), slot(5)),
+        (("elem", 1, P, ("arg", 5)), slot(3)),
+        (("elem", 2, A, slot(3)), ("arg", 5)),
+        (("elem", 4, A, slot(5)), ("arg", 3)),
+    }
+    got = {(b, v) for _, b, v in stores}
+    if got != want:
+        ctx.fail(R, "swap", "the index swap is not a permutation: stores %s, specified %s. A removed dependency that is not the "
+                 "last one leaves the parent's slot pointing at the wrong position in the child's parent list"
+                 % (sorted(map(str, got - want)), sorted(map(str, want - got))), fn=F,
+                 span=stores[0][0].span if stores else None)
+        return
+    # the two slot loads happen before the first store into the parent's array
+    pst = [st for st, b, v in stores if b[1] == 1]
+    loads = [t for t in F.calls() if t.callee and t.callee.endswith("::index") and not q.is_debug_assert(t)
+             and any(f.endswith(P) for f in __import__("rules.effects", fromlist=["x"]).resolve_fields(prog, F, t.arg_place(0), du))]
+    first_store = min(pst, key=lambda s_: s_.bb)
+    if loads and all(c.dominates(t.bb, first_store.bb) and t.bb != first_store.bb for t in loads):
+        ctx.ok(R, "swap")
+    else:
+        ctx.fail(R, "swap", "a slot is read after the parent's array has been overwritten", fn=F)
+
+
 for _f, _id in ((sign_handlers, "C11.SIGN-handlers"), (sign_heaps, "C11.SIGN-heaps"),
                 (wmw_markers, "C11.WMW-markers"), (guard_stats, "C11.GUARD-stats"),
-                (dom_invalidate, "C11.DOM-invalidate"), (dom_bracket, "C11.DOM-bracket")):
+                (dom_invalidate, "C11.DOM-invalidate"), (dom_bracket, "C11.DOM-bracket"), (data_swap, "C11.DATA-swap")):
     _f.rule_id = _id
 
-RULES = [sign_handlers, sign_heaps, wmw_markers, guard_stats, dom_invalidate, dom_bracket]
+RULES = [sign_handlers, sign_heaps, wmw_markers, guard_stats, dom_invalidate, dom_bracket, data_swap]
